@@ -1,0 +1,112 @@
+//go:build verif
+
+package adapter
+
+import (
+	"fmt"
+	"sort"
+	"time"
+
+	"github.com/karagenc/socket.io-go/internal/verifhook"
+	"github.com/karagenc/socket.io-go/parser"
+)
+
+// Exports for the runtime-verification harness (build tag `verif` only).
+
+func VerifHookSet(name string, f func()) { verifhook.Set(name, f) }
+func VerifHookHits(name string) int64    { return verifhook.Hits(name) }
+
+// VerifNewSessionAwareAdapterCreator exposes the window and the clean-up
+// period of the session-aware adapter (production hard-codes 1 minute).
+// cleanerPeriod == 0 disables the clean-up task.
+func VerifNewSessionAwareAdapterCreator(window, cleanerPeriod time.Duration) Creator {
+	creator := NewInMemoryAdapterCreator()
+	return func(socketStore SocketStore, parserCreator parser.Creator) Adapter {
+		inMemoryAdapter := creator(socketStore, parserCreator).(*inMemoryAdapter)
+		return newSessionAwareAdapter(inMemoryAdapter, window, cleanerPeriod)
+	}
+}
+
+func verifInMemory(a Adapter) *inMemoryAdapter {
+	switch v := a.(type) {
+	case *inMemoryAdapter:
+		return v
+	case *sessionAwareAdapter:
+		return v.inMemoryAdapter
+	}
+	return nil
+}
+
+// VerifCheckIndexInvariant walks rooms/sids under the adapter's own mutex:
+// the two indexes must be mutually inverse and no empty room set may be kept.
+func VerifCheckIndexInvariant(a Adapter) error {
+	m := verifInMemory(a)
+	if m == nil {
+		return fmt.Errorf("not an in-memory adapter")
+	}
+	m.mu.Lock()
+	defer m.mu.Unlock()
+	for room, sids := range m.rooms {
+		if sids.Cardinality() == 0 {
+			return fmt.Errorf("empty room set kept for room %q", room)
+		}
+		for _, sid := range sids.ToSlice() {
+			rs, ok := m.sids[sid]
+			if !ok || !rs.Contains(room) {
+				return fmt.Errorf("rooms[%q] contains %q but sids[%q] lacks the room", room, sid, sid)
+			}
+		}
+	}
+	for sid, rs := range m.sids {
+		for _, room := range rs.ToSlice() {
+			ss, ok := m.rooms[room]
+			if !ok || !ss.Contains(sid) {
+				return fmt.Errorf("sids[%q] contains %q but rooms[%q] lacks the socket", sid, room, room)
+			}
+		}
+	}
+	return nil
+}
+
+// VerifIndexSnapshot returns sid -> sorted rooms as currently stored.
+func VerifIndexSnapshot(a Adapter) map[SocketID][]Room {
+	m := verifInMemory(a)
+	if m == nil {
+		return nil
+	}
+	m.mu.Lock()
+	defer m.mu.Unlock()
+	out := make(map[SocketID][]Room, len(m.sids))
+	for sid, rs := range m.sids {
+		rooms := rs.ToSlice()
+		sort.Slice(rooms, func(i, j int) bool { return rooms[i] < rooms[j] })
+		out[sid] = rooms
+	}
+	return out
+}
+
+// VerifLogIDs returns the offset ids of the packet log, in log order.
+func VerifLogIDs(a Adapter) []string {
+	s, ok := a.(*sessionAwareAdapter)
+	if !ok {
+		return nil
+	}
+	s.mu.Lock()
+	defer s.mu.Unlock()
+	ids := make([]string, len(s.packets))
+	for i, p := range s.packets {
+		ids[i] = p.ID
+	}
+	return ids
+}
+
+// VerifSessionCount returns the number of persisted sessions.
+func VerifSessionCount(a Adapter) int {
+	s, ok := a.(*sessionAwareAdapter)
+	if !ok {
+		return 0
+	}
+	s.mu.Lock()
+	defer s.mu.Unlock()
+	return len(s.sessions)
+}
